@@ -418,6 +418,11 @@ func registerProtoCodec(p *Program) {
 		*ptr = payload
 		return Iface{}
 	}
+	for _, n := range []string{"github.com/cosmos/gogoproto/proto.CompactTextString", "github.com/cosmos/gogoproto/proto.MarshalTextString", "github.com/golang/protobuf/proto.CompactTextString"} {
+		I[n] = func(m *Machine, fr *Frame, fn *ssa.Function, a []Value) Value {
+			return &Str{b: m.mkStr("<proto text>").b, tainted: true}
+		}
+	}
 	// vp.Codec(): a codec object for harnesses that need the real-codec behaviour
 	I[vpPath+"Codec"] = func(m *Machine, fr *Frame, fn *ssa.Function, a []Value) Value {
 		return Iface{t: m.p.ntype("native.ProtoCodec"), v: &ProtoCodecObj{}}
